@@ -78,6 +78,33 @@ fn walk_tlvs(it: v2::TypeLengthValues<'_>) -> Result<usize, usize> {
             count += 1;
         }
     }
+    // the rest of the Iterator interface, on fresh copies and on the exhausted one: these must
+    // return normally too (what they return is C11's business)
+    let fresh = v2::TypeLengthValues::from(it.as_bytes());
+    for k in [0usize, 1, 2, 3, 7] {
+        let mut c = fresh;
+        let _ = c.nth(k);
+        let _ = c.next();
+        let _ = c.len();
+        let mut c = fresh;
+        let _ = c.next();
+        let _ = c.nth(k);
+        let _ = fresh.skip(k).take(4).count();
+        let _ = fresh.step_by(k + 1).take(4).count();
+    }
+    let _ = fresh.size_hint();
+    if n <= 2048 || n == 200_001 {
+        let _ = fresh.take(bound + 2).count();
+        let _ = fresh.take(bound + 2).last();
+        let _ = fresh.take(bound + 2).fold(0usize, |a, x| a + x.map(|t| t.len()).unwrap_or(0));
+    }
+    let _ = it.nth(1);
+    let _ = it.len();
+    let _ = it.is_empty();
+    let _ = it.size_hint();
+    if n <= 256 {
+        let _ = format!("{:?}", it).len();
+    }
     if count > bound {
         Err(count)
     } else {
